@@ -45,7 +45,8 @@ def handleJar (l : Line) : List Verdict :=
     let viol : List (String × String) :=
       (if after == "callback" && status == 302 && names.contains "login" then [("C14.cookie_survives.login", "login cookie still in the jar after a completed callback")] else []) ++
       (if after == "callback" && status == 302 && !names.contains "session" then [("C14.cookie_survives.nosession", "no session cookie in the jar after a completed callback (the browser dropped it)")] else []) ++
-      (if ["logout", "logoutlocal", "frontchannel", "logout+callback"].contains after && names.contains "session" then [("C14.cookie_survives.session", s!"session cookie still in the jar after {after}")] else []) ++
+      (if ["logout", "logoutlocal", "frontchannel", "logout+callback"].contains after && names.contains "session" then [("C14.cookie_survives.session", s!"session cookie still in the jar after {after}"),
+              ("C05.cookie_not_cleared", s!"a cookie-honouring browser still holds the session cookie after {after}")] else []) ++
       (if after == "logoutcallback" && names.contains "logout" then [("C14.cookie_survives.logout", "logout cookie still in the jar after the logout callback")] else [])
     pure (verdictsOf [] viol)
   r.getD [Verdict.bad "jar"]
